@@ -28,6 +28,9 @@ Inductive stmt :=
 | Rebind (h:nat)                (* x = <something that is not a file lasio opens> *)
 | Seq (a b:stmt) | If (a b:stmt) | Loop (b:stmt)
 | TryFinally (b f:stmt) | TryExcept (b h:stmt)
+| Guarded (h:nat) (b:stmt)      (* if <x holds a file>: b   —  `if opened_file: x.close()`,
+                                   `if hasattr(x, "close"): x.close()`: b is skipped only when
+                                   x does not hold a file lasio opened *)
 | Call (b:stmt).                (* inlined call of a translated helper: its `return` ends the helper only *)
 
 (* with open(..) as x: body *)
@@ -76,6 +79,8 @@ Inductive exec : stmt -> st -> outcome -> st -> Prop :=
 | XFinX b f s o s1 o2 s2 : exec b s o s1 -> exec f s1 o2 s2 -> o2 <> ONorm -> exec (TryFinally b f) s o2 s2
 | XExcP b h s o s1 : exec b s o s1 -> exec (TryExcept b h) s o s1      (* incl. a raise no handler matches *)
 | XExcH b h s s1 o s2 : exec b s ORaise s1 -> exec h s1 o s2 -> exec (TryExcept b h) s o s2
+| XGuardRun h b s o s1 : exec b s o s1 -> exec (Guarded h b) s o s1
+| XGuardSkip h b ow tc n : mem h ow = false -> exec (Guarded h b) (ow, tc, n) ONorm (ow, tc, n)
 | XCallN b s o s1 : exec b s o s1 -> o <> ORaise -> exec (Call b) s ONorm s1
 | XCallR b s s1 : exec b s ORaise s1 -> exec (Call b) s ORaise s1.
 
@@ -152,6 +157,10 @@ Fixpoint an (s:stmt) (A:list nat) : option res :=
         | None => Some rb
         | Some A1 => match an h A1 with None => None | Some rh => Some (rj rb rh) end
         end end
+  | Guarded h b =>
+      (* skipped only when h is not open: the state is then within A minus h *)
+      match an b A with None => None | Some rb =>
+        Some (rj rb {| rN := Some (rm h A); rR := None; rT := None; rB := None; rC := None |}) end
   | Call b =>
       match an b A with None => None | Some rb =>
         Some {| rN := oj (oj (rN rb) (rT rb)) (oj (rB rb) (rC rb)); rR := rR rb;
@@ -176,7 +185,7 @@ Fixpoint caller_handles_untouched (s:stmt) : bool :=
   | CloseArg _ => false
   | Seq a b | If a b | TryFinally a b | TryExcept a b =>
       caller_handles_untouched a && caller_handles_untouched b
-  | Loop b | Call b => caller_handles_untouched b
+  | Loop b | Call b | Guarded _ b => caller_handles_untouched b
   | _ => true
   end.
 
